@@ -371,6 +371,28 @@ func (c *Ctx) c19Restore() {
 			okMatch = true
 		}
 	}
+	// library form of the search: slices.IndexFunc(sent messages, func(m) bool { return m.B_ == <returned B_> })
+	for _, ci := range Calls(f) {
+		d := c.P.Describe(ci)
+		if d.Name != "slices.IndexFunc" || len(d.Args) != 2 {
+			continue
+		}
+		pred := resolveFuncValue(d.Args[1])
+		if pred == nil {
+			continue
+		}
+		po := o.EnterClosure(pred)
+		for _, r := range Returns(pred) {
+			e := po.Of(r.Results[0])
+			if e.K != "bin" || e.S != "==" {
+				continue
+			}
+			a0, a1 := unwrapAnyof(e.Args[0]), unwrapAnyof(e.Args[1])
+			if strings.HasSuffix(a0.String(), ".B_") && strings.HasSuffix(a1.String(), ".B_") && strings.Contains(e.String(), ".Outputs") {
+				okMatch = true
+			}
+		}
+	}
 	R.Check("R3", fk, "proof rebuilt with the r of the matched B_", c.P.Pos(f.Pos()), okR && okMatch, "each returned signature is matched to the sent message with the same B_ and unblinded with that message's r", "")
 
 	// the batch loop: condition emptyBatches < 3
